@@ -91,8 +91,8 @@ pub fn vx_msg() -> String { String::new() }
 '''
 
 
-def build():
-    u = Unit('u_off', serves=['C04', 'C19', 'C14'])
+def build(name='u_off', selector_variants=('TextSelector', 'AnnotationSelector', 'ResourceSelector')):
+    u = Unit(name, serves=['C04', 'C19', 'C14'])
     common.target64(u)
     common.int_specs(u)
     u.trusted_text(VX_MSG, 'external_body vx_msg(): error message text (R-err)')
@@ -100,7 +100,8 @@ def build():
     u.item('src/selector.rs', 'struct', 'Offset', keep_derives=['Clone', 'Copy', 'PartialEq'])
     u.item('src/selector.rs', 'enum', 'OffsetMode', keep_derives=['Clone', 'Copy', 'PartialEq'])
     u.item('src/error.rs', 'enum', 'StamError', keep_variants=['CursorOutOfBounds', 'InvalidOffset', 'InvalidCursor'], keep_derives=['Debug'])
-    u.item('src/textselection.rs', 'struct', 'TextSelectionHandle', keep_derives=['PartialEq', 'Eq', 'Clone', 'Copy', 'PartialOrd', 'Ord'])
+    common.handle_trait(u, P)
+    common.handle_impl(u, 'TextSelectionHandle', P)
     u.item('src/textselection.rs', 'struct', 'TextSelection', keep_derives=['Clone', 'Copy'])
     u.spec(SPEC, 'contracts/u_off.py:SPEC')
 
@@ -258,9 +259,9 @@ impl TextResource {
 
     # ------------------------------------------------------------------ Selector::offset_with_mode (reporting)
     S = 'src/selector.rs'
-    u.item(R, 'struct', 'TextResourceHandle', keep_derives=['PartialEq', 'Eq', 'Clone', 'Copy', 'PartialOrd', 'Ord'])
-    u.item('src/annotation.rs', 'struct', 'AnnotationHandle', keep_derives=['PartialEq', 'Eq', 'Clone', 'Copy', 'PartialOrd', 'Ord'])
-    u.item(S, 'enum', 'Selector', keep_variants=['TextSelector', 'AnnotationSelector', 'ResourceSelector'], keep_derives=[])
+    common.handle_impl(u, 'TextResourceHandle', P)
+    common.handle_impl(u, 'AnnotationHandle', P)
+    u.item(S, 'enum', 'Selector', keep_variants=list(selector_variants), keep_derives=[])
     u.item('src/annotation.rs', 'struct', 'Annotation', keep_fields=['target'], keep_derives=[], rewrites=[('R-vis', r'\btarget:', 'pub target:')])
     u.trusted_text(STORE_STUBS, 'external_body AnnotationStore (opaque) with VxGet::get stubs: StoreFor::get(handle) returns the live item under that handle (contract assumed; proved for the generic StoreFor::get in unit u_store); Result::expect; str::len is an uninterpreted byte length')
     u.impl('src/annotation.rs', 'impl Annotation', [
